@@ -6,7 +6,11 @@ import (
 	"go/ast"
 	"go/parser"
 	"go/token"
+	"os"
+	"path/filepath"
 	"reflect"
+	"sort"
+	"strings"
 
 	"github.com/dave/dst"
 	"github.com/dave/dst/decorator"
@@ -32,6 +36,7 @@ type c11Input struct {
 	Extras   bool     `json:"extras,omitempty"` // restorer side: Restorer.Extras (objects and scopes restored, deferred declaring nodes)
 	Package  bool     `json:"package,omitempty"` // the files are resolved as one package first (ast.NewPackage): identifiers of one file carry objects declared in another
 	Remove   bool     `json:"remove_first_stmt,omitempty"` // restorer side: the first statement of the first function is taken out after decorating (its objects keep pointing at it)
+	PkgAPI   string   `json:"package_api,omitempty"` // decorator side, the package as the root node: "ParseDir" (Decorator.ParseDir on a directory holding the sources as f<i>.go) | "DecorateNode" (an *ast.Package per package name handed to DecorateNode)
 }
 
 func astKind(n ast.Node) string { return kindOf(n) }
@@ -111,6 +116,23 @@ func c11Laws(dstNodes map[ast.Node]dst.Node, astNodes map[dst.Node]ast.Node, sid
 					want := dstNodes[afv.Interface().(ast.Node)]
 					if want != dfv.Interface().(dst.Node) {
 						return "c11-structure", fmt.Sprintf("%s: Dst.Nodes[a.%s] is not d.%s for a %s", side, df.Name, df.Name, kindOf(d))
+					}
+				}
+			case df.Type.Kind() == reflect.Map && df.Type.Elem().Implements(dstNodeType):
+				// Package.Files: the same keys, corresponding values
+				if afv.Kind() != reflect.Map || afv.Len() != dfv.Len() {
+					return "c11-structure", fmt.Sprintf("%s: %s.%s has %d entries on the dst side, %d on the ast side", side, kindOf(d), df.Name, dfv.Len(), afv.Len())
+				}
+				for _, k := range dfv.MapKeys() {
+					ae := afv.MapIndex(k)
+					if !ae.IsValid() || isNilAst(ae) != isNilNode(dfv.MapIndex(k)) {
+						return "c11-structure", fmt.Sprintf("%s: %s.%s[%v] is present on one side only", side, kindOf(d), df.Name, k)
+					}
+					if isNilAst(ae) {
+						continue
+					}
+					if want := dstNodes[ae.Interface().(ast.Node)]; want != dfv.MapIndex(k).Interface().(dst.Node) {
+						return "c11-structure", fmt.Sprintf("%s: Dst.Nodes[a.%s[%v]] is not d.%s[%v] for a %s", side, df.Name, k, df.Name, k, kindOf(d))
 					}
 				}
 			case df.Type.Kind() == reflect.Slice && df.Type.Elem().Implements(dstNodeType):
@@ -279,7 +301,219 @@ func c11Check(in c11Input) (key, what string) {
 	return c11Laws(r.Dst.Nodes, r.Ast.Nodes, "restorer")
 }
 
+// c11PackageCheck: the package is the root node.  Decorator.ParseDir (the method: the helper of the
+// same name throws its Decorator away) on a directory holding the sources, or DecorateNode on an
+// *ast.Package per package name.  The *dst.Package / *ast.Package pair is a pair of the maps like
+// any other: the dst package maps back to the ast package it came from, dst.Inspect from the
+// package reaches only mapped nodes, ast.Inspect from the ast package reaches only mapped nodes
+// (comments excluded), Package.Files commutes, and all laws hold over the complete maps.  What
+// the packages and their files are is taken from go/parser (ParseDir with a FileSet of its own).
+func c11PackageCheck(in c11Input, scratch string) (key, what string) {
+	fset := token.NewFileSet()
+	var dec *decorator.Decorator
+	if in.Resolver {
+		dec = decorator.NewDecoratorWithImports(fset, "example.com/self", goastNew())
+	} else {
+		dec = decorator.NewDecorator(fset)
+	}
+	side := "decorator(" + in.PkgAPI + ")"
+	// reference: package name -> file names, from go/parser alone
+	ref := map[string]map[string]bool{}
+	names := map[int]string{}
+	{
+		rf := token.NewFileSet()
+		for i, src := range in.Srcs {
+			af, err := parser.ParseFile(rf, fmt.Sprintf("f%d.go", i), src, parser.ParseComments|parser.PackageClauseOnly)
+			if err != nil {
+				continue
+			}
+			if _, err := parser.ParseFile(rf, fmt.Sprintf("f%d.go", i), src, parser.ParseComments); err != nil {
+				continue // Decorator.ParseDir gives up on a directory with a file that does not parse
+			}
+			names[i] = fmt.Sprintf("f%d.go", i)
+			if ref[af.Name.Name] == nil {
+				ref[af.Name.Name] = map[string]bool{}
+			}
+			ref[af.Name.Name][names[i]] = true
+		}
+	}
+	if len(names) == 0 {
+		return "", ""
+	}
+	dpkgs := map[string]*dst.Package{}
+	apkgs := map[string]*ast.Package{} // DecorateNode: the ast packages handed in
+	prefix := ""
+	switch in.PkgAPI {
+	case "ParseDir":
+		dir, err := os.MkdirTemp(scratch, "c11-")
+		if err != nil {
+			return "", ""
+		}
+		defer os.RemoveAll(dir)
+		for i, src := range in.Srcs {
+			if names[i] != "" {
+				if err := os.WriteFile(filepath.Join(dir, names[i]), []byte(src), 0644); err != nil {
+					return "", ""
+				}
+			}
+		}
+		prefix = dir + string(filepath.Separator)
+		var out map[string]*dst.Package
+		if pm := safely(func() { out, err = dec.ParseDir(dir, nil, parser.ParseComments) }); pm != "" || err != nil {
+			return "", "" // e.g. the resolver cannot resolve an import
+		}
+		dpkgs = out
+	case "DecorateNode":
+		for i, src := range in.Srcs {
+			if names[i] == "" {
+				continue
+			}
+			af, err := parser.ParseFile(fset, names[i], src, parser.ParseComments)
+			if err != nil {
+				return "", ""
+			}
+			if apkgs[af.Name.Name] == nil {
+				apkgs[af.Name.Name] = &ast.Package{Name: af.Name.Name, Files: map[string]*ast.File{}}
+			}
+			apkgs[af.Name.Name].Files[names[i]] = af
+		}
+		for name, ap := range apkgs {
+			if in.Package {
+				// identifiers resolved across the files (errors about unresolved names are expected)
+				rp, _ := ast.NewPackage(fset, ap.Files, nil, nil)
+				if rp != nil {
+					ap, apkgs[name] = rp, rp
+				}
+			}
+			var dn dst.Node
+			var err error
+			if pm := safely(func() { dn, err = dec.DecorateNode(ap) }); pm != "" || err != nil {
+				return "", ""
+			}
+			dp, ok := dn.(*dst.Package)
+			if !ok {
+				return "c11-kind", fmt.Sprintf("%s: DecorateNode of an *ast.Package returns a %s", side, kindOf(dn))
+			}
+			if got := dec.Dst.Nodes[ap]; got != dst.Node(dp) {
+				return "c11-total", fmt.Sprintf("%s: Dst.Nodes[the *ast.Package handed in] is not the *dst.Package returned (%s)", side, kindOf(got))
+			}
+			dpkgs[name] = dp
+		}
+	default:
+		return "", ""
+	}
+	// the packages and files are those go/parser finds
+	if len(dpkgs) != len(ref) {
+		return "c11-package-files", fmt.Sprintf("%s: %d packages returned, go/parser finds %d", side, len(dpkgs), len(ref))
+	}
+	var pnames []string
+	for name := range dpkgs {
+		pnames = append(pnames, name)
+	}
+	sort.Strings(pnames)
+	for _, name := range pnames {
+		dp := dpkgs[name]
+		if dp == nil || ref[name] == nil || dp.Name != name {
+			return "c11-package-files", fmt.Sprintf("%s: package %q returned; go/parser finds no package of that name (or the node is nil / named otherwise)", side, name)
+		}
+		if len(dp.Files) != len(ref[name]) {
+			return "c11-package-files", fmt.Sprintf("%s: package %s has %d files, go/parser finds %d", side, name, len(dp.Files), len(ref[name]))
+		}
+		for fn, df := range dp.Files {
+			if !ref[name][strings.TrimPrefix(fn, prefix)] || df == nil {
+				return "c11-package-files", fmt.Sprintf("%s: package %s has a file %q that go/parser does not put there (or a nil file)", side, name, strings.TrimPrefix(fn, prefix))
+			}
+		}
+		// the root node maps back to the ast package it came from
+		a, ok := dec.Ast.Nodes[dp]
+		if !ok {
+			return "c11-total", fmt.Sprintf("%s: the *dst.Package %s (the root that dst.Inspect visits) has no entry in Ast.Nodes", side, name)
+		}
+		ap, ok := a.(*ast.Package)
+		if !ok || ap == nil {
+			return "c11-kind", fmt.Sprintf("%s: the *dst.Package %s is mapped to a %s", side, name, astKind(a))
+		}
+		if want, ok := apkgs[name]; ok && want != ap {
+			return "c11-inverse", fmt.Sprintf("%s: Ast.Nodes[the *dst.Package %s] is not the *ast.Package it came from", side, name)
+		}
+		if ap.Name != name {
+			return "c11-structure", fmt.Sprintf("%s: the *dst.Package %s maps to an *ast.Package named %s", side, name, ap.Name)
+		}
+		// dst.Inspect from the package reaches only mapped nodes
+		var dmiss dst.Node
+		seenFiles := 0
+		dst.Inspect(dp, func(n dst.Node) bool {
+			if n == nil {
+				return false
+			}
+			if _, ok := n.(*dst.File); ok {
+				seenFiles++
+			}
+			if _, ok := dec.Ast.Nodes[n]; !ok && dmiss == nil {
+				dmiss = n
+			}
+			return true
+		})
+		if dmiss != nil {
+			return "c11-total", fmt.Sprintf("%s: dst.Inspect from the package %s reaches a %s that has no entry in Ast.Nodes", side, name, kindOf(dmiss))
+		}
+		if seenFiles != len(dp.Files) {
+			return "c11-total", fmt.Sprintf("%s: dst.Inspect from the package %s reaches %d files of %d", side, name, seenFiles, len(dp.Files))
+		}
+		// ... and by reflection (independent of walk.go), file by file
+		for _, df := range dp.Files {
+			var all []dst.Node
+			reflectPreorder(df, nil, &all)
+			for _, n := range all {
+				if _, ok := dec.Ast.Nodes[n]; !ok {
+					return "c11-total", fmt.Sprintf("%s: a %s of the dst tree has no entry in Ast.Nodes", side, kindOf(n))
+				}
+			}
+		}
+		// ast.Inspect from the ast package reaches only mapped nodes, comments excluded
+		var miss ast.Node
+		ast.Inspect(ap, func(n ast.Node) bool {
+			switch n.(type) {
+			case nil:
+				return false
+			case *ast.Comment, *ast.CommentGroup:
+				return false
+			}
+			if _, ok := dec.Dst.Nodes[n]; !ok && miss == nil {
+				miss = n
+			}
+			if id, ok := n.(*ast.Ident); ok && id.Obj != nil {
+				if dn, ok := id.Obj.Decl.(ast.Node); ok {
+					if _, ok := dec.Dst.Nodes[dn]; !ok && miss == nil {
+						miss = dn
+					}
+				}
+			}
+			return true
+		})
+		if miss != nil {
+			return "c11-total", fmt.Sprintf("%s: a %s reachable from the *ast.Package %s has no entry in Dst.Nodes", side, astKind(miss), name)
+		}
+		if got := dec.Dst.Nodes[ap]; got != dst.Node(dp) {
+			return "c11-inverse", fmt.Sprintf("%s: Dst.Nodes[Ast.Nodes[the *dst.Package %s]] is not that package (%s)", side, name, kindOf(got))
+		}
+	}
+	// every law over the complete maps (Package.Files element-wise by key)
+	return c11Laws(dec.Dst.Nodes, dec.Ast.Nodes, side)
+}
+
+// c11Scratch: where the directories for Decorator.ParseDir are made (removed after each run)
+var c11Scratch string
+
+// sources of more than one package in one directory (ParseDir returns one *dst.Package each)
+var c11DirFiles = [][]string{
+	{"// Package a is a.\npackage a\n\nimport \"fmt\"\n\n// F prints.\nfunc F() { fmt.Println(V) } // done\n", "package a\n\n// V is a value.\nvar V = 1 /* one */\n", "package a_test\n\nimport (\n\t\"io\"\n\t\"testing\"\n)\n\nfunc TestF(t *testing.T) {\n\tvar w io.Writer\n\t_ = w\n}\n"},
+	{"package main\n\nfunc main() {}\n"},
+	{"package p\n\ntype G[K comparable, V any] struct {\n\tm map[K]V // the map\n}\n", "package q\n\nimport \"os\"\n\nvar Args = os.Args[1:]\n", "package p\n\nfunc (g *G[K, V]) Get(k K) (v V) {\n\treturn g.m[k]\n}\n"},
+}
+
 func c11Prop(c *Ctx) {
+	c11Scratch = filepath.Join(c.Verif, ".build")
 	c.Res.Rule = "groups of 1-3 sources (hand corpus, range/closure/label snippets whose objects point outside the tree, $GOROOT/src sample) x {decorator, restorer} x {no resolver, goast+guess import management}; all laws checked over the COMPLETE maps; non-trivial = distinct (sources, side, resolver)"
 	extra := []string{
 		"package a\n\nimport \"fmt\"\n\nfunc f(m map[string]int) {\n\tfor k, v := range m {\n\t\tfmt.Println(k, v)\n\t}\nL:\n\tfor i := range m {\n\t\t_ = i\n\t\tcontinue L\n\t}\n}\n",
@@ -307,6 +541,32 @@ func c11Prop(c *Ctx) {
 		c.Res.hist("c11", fmt.Sprintf("restorer+extras, declaring statement removed, resolver=%v", res))
 		if key, what := c11Check(in); key != "" {
 			c.Res.fail(key, what, in)
+		}
+	}
+	// the package as the root node: Decorator.ParseDir on a directory, DecorateNode on *ast.Package
+	{
+		var groups [][]string
+		groups = append(groups, c18CrossFiles...)
+		groups = append(groups, c11DirFiles...)
+		for i := 0; i < c.N(8); i++ {
+			var g []string
+			for j, n := 0, 1+c.Rng.Intn(4); j < n; j++ {
+				g = append(g, srcs[c.Rng.Intn(len(srcs))])
+			}
+			groups = append(groups, g)
+		}
+		for gi, g := range groups {
+			for _, api := range []string{"ParseDir", "DecorateNode"} {
+				for _, res := range []bool{false, true} {
+					in := c11Input{Srcs: g, Side: "decorator", PkgAPI: api, Resolver: res, Package: api == "DecorateNode" && gi%2 == 0}
+					c.Res.Evaluations++
+					c.Res.seen(fmt.Sprint("pkg", api, res, gi))
+					c.Res.hist("c11", fmt.Sprintf("decorator package root via %s resolver=%v", api, res))
+					if key, what := c11PackageCheck(in, c11Scratch); key != "" {
+						c.Res.fail(key, what, in)
+					}
+				}
+			}
 		}
 	}
 	for i := 0; i < c.N(96)+len(extra); i++ {
@@ -357,6 +617,10 @@ func init() {
 		var in c11Input
 		if err := json.Unmarshal(raw, &in); err != nil || len(in.Srcs) == 0 {
 			return false, "not a C11 generated input"
+		}
+		if in.PkgAPI != "" {
+			key, what := c11PackageCheck(in, filepath.Join(c.Verif, ".build"))
+			return key != "", what
 		}
 		key, what := c11Check(in)
 		return key != "", what
